@@ -11,8 +11,10 @@ import (
 	"os"
 	"os/exec"
 	"path/filepath"
+	"regexp"
 	"sort"
 	"strings"
+	"time"
 
 	"github.com/VKCOM/tl/internal/pure"
 	"github.com/VKCOM/tl/internal/puregen"
@@ -175,6 +177,8 @@ func opGenBuild(args []string) string {
 
 // ---------------------------------------------------------------- determinism (C15)
 
+var tloDateRe = regexp.MustCompile(`"date": [0-9]+,`)
+
 func hashTree(root string) (string, int) {
 	var items []string
 	_ = filepath.Walk(root, func(p string, info os.FileInfo, err error) error {
@@ -280,6 +284,7 @@ func opDet(args []string) string {
 	}
 	procs := []string{"1", "16", "2", "16"}
 	var first string
+	var dates []string
 	for vi, roots := range variants {
 		out := filepath.Join(cdir, fmt.Sprintf("out%d", vi))
 		var v string
@@ -301,6 +306,36 @@ func opDet(args []string) string {
 			}
 			a := []string{"--language=" + lang, "--outfile=" + filepath.Join(out, "out.bin"), "--schemaTimestamp=1700000000", "--schemaCommit=abc", "--schemaURL=http://x"}
 			v, _ = runEnv(os.Getenv("VERIF_TL2GEN"), env, append(a, roots...)...)
+		case "tlo-default":
+			// default options: --schemaTimestamp unset (0). tlast/tlgen_tlo.go then writes the wall clock into the `date` word of
+			// tls.schema_v4 (bytes 8..11), so the runs are spaced by more than a second and compared with that word masked;
+			// the answer says whether the date word was the only difference
+			if err := os.MkdirAll(out, 0755); err != nil {
+				panic(err)
+			}
+			if vi == 1 {
+				time.Sleep(1100 * time.Millisecond)
+			}
+			a := []string{"--language=tlo", "--outfile=" + filepath.Join(out, "out.bin")}
+			v, _ = runEnv(os.Getenv("VERIF_TL2GEN"), env, append(a, roots...)...)
+			if v == "ok" {
+				data, err := os.ReadFile(filepath.Join(out, "out.bin"))
+				if err != nil || len(data) < 12 {
+					return "bad-tlo"
+				}
+				dates = append(dates, hex.EncodeToString(data[8:12]))
+				copy(data[8:12], []byte{0, 0, 0, 0})
+				if err := os.WriteFile(filepath.Join(out, "out.bin"), data, 0644); err != nil {
+					panic(err)
+				}
+				// the JSON twin written next to it carries the same word as `"date": N`
+				if js, err := os.ReadFile(filepath.Join(out, "out.bin.json")); err == nil {
+					js = tloDateRe.ReplaceAll(js, []byte(`"date": 0,`))
+					if err := os.WriteFile(filepath.Join(out, "out.bin.json"), js, 0644); err != nil {
+						panic(err)
+					}
+				}
+			}
 		case "cpp":
 			a := []string{"-language=cpp", "-outdir=" + out, "-cpp-generate-meta", "-cpp-generate-factory"}
 			v, _ = runEnv(os.Getenv("VERIF_TLGEN"), env, append(a, roots...)...)
@@ -325,6 +360,11 @@ func opDet(args []string) string {
 			first = sig
 		} else if sig != first {
 			return fmt.Sprintf("diff variant%d %s vs %s", vi, strings.ReplaceAll(sig, " ", "_"), strings.ReplaceAll(first, " ", "_"))
+		}
+	}
+	for _, d := range dates {
+		if d != dates[0] {
+			return "date-differs " + first
 		}
 	}
 	return first
